@@ -1,6 +1,7 @@
 package harness
 
 import (
+	"net/url"
 	"fmt"
 	"math/rand"
 	"runtime"
@@ -745,8 +746,181 @@ func openWinScenario(name, kind, point, fault string) Scenario {
 	}}
 }
 
+// (11) C11: a response whose write FAILS (the peer is gone and nobody has noticed, or a write deadline has passed) is still the one
+// response of its request: nobody writes to that request again, and its handler returns.
+//   poll: a pending poll on a failing connection, then the application sends.
+//   post: a data request on a failing connection whose message listener closes the session (the server's own 429 abort and the
+//         handler's acknowledgement both want to answer it).
+func failWriteScenario(name, which string, nfail int) Scenario {
+	return Scenario{Name: name, Run: func(t *testing.T, rec *Rec, g *Gates) {
+		cfg := EngCfg{PI: 25 * time.Second, PT: 20 * time.Second}
+		d := newDirect(t, rec, g, cfg, "polling")
+		if d.sid == "" {
+			d.w.Finish()
+			return
+		}
+		w, sc, c := d.w, d.sc, d.c
+		w.Cause(d.sid, "error")
+		var r *Req
+		if which == "poll" {
+			r = w.StartReq("poll", c.S, ReqOpt{FailWrites: nfail})
+			sc.settle()
+			// (for the monitor the client of this poll has gone away - the server has not been told)
+			rec.Log("cli.abort", "rid", r.ID, "kind", r.Kind)
+			go w.Send(d.sid, SendOpt{Size: 5})
+			sc.settle()
+		} else {
+			w.Cause(d.sid, "app")
+			w.Hook("message", func(sid string, _ ...any) {
+				if so := w.Sock(sid); so != nil {
+					so.Close(false)
+				}
+			})
+			o := ReqOpt{FailWrites: nfail}
+			r = w.Post(c.S, []Pkt{w.ClientMsg(5, false, 0)}, o)
+			rec.Log("cli.abort", "rid", r.ID, "kind", r.Kind)
+			sc.settle()
+		}
+		w.mu.Lock()
+		ret, nwh := r.returned, r.rr.nWriteHdr
+		w.mu.Unlock()
+		rec.Log("failwrite", "which", which, "rid", r.ID, "returned", ret, "nwh", nwh)
+		c.dead = true // (this client's connection is broken: it is not a client that keeps reading)
+		w.Snapshot()
+		w.ServerClose()
+		sc.settle()
+		w.Finish()
+	}}
+}
+
+// (12) C08: a "candidate" that is none: a WebSocket (upgrade) request naming the session but the POLLING transport, or an unknown
+// transport. Whatever the server makes of it, the session is not left marked as upgrading, the connection does not stay open on the
+// server's side, and a candidate that follows the protocol afterwards completes the switch.
+func candBogusScenario(name, transport string, pendingPoll bool) Scenario {
+	return Scenario{Name: name, Run: func(t *testing.T, rec *Rec, g *Gates) {
+		cfg := EngCfg{PI: 25 * time.Second, PT: 20 * time.Second, UT: 5 * time.Second}
+		d := newDirect(t, rec, g, cfg, "polling")
+		if d.sid == "" {
+			d.w.Finish()
+			return
+		}
+		w, sc, c := d.w, d.sc, d.c
+		if pendingPoll {
+			sc.doPoll(c)
+			sc.settle()
+		}
+		bogus := w.dialWSQuery(c.S, "EIO=4&transport="+transport+"&sid="+url.QueryEscape(d.sid), nil, nil)
+		sc.settle()
+		if !bogus.closed {
+			bogus.SendPkt(Pkt{Type: "ping", Data: []byte("probe")})
+			sc.settle()
+		}
+		w.Expect(d.sid, "notupgrading")
+		// a real candidate right away (not after the upgrade timeout)
+		a := w.DialWS(c.S, "", nil, nil)
+		sc.settle()
+		if !a.closed {
+			a.SendPkt(Pkt{Type: "ping", Data: []byte("probe")})
+			sc.settle()
+			g.SleepArmed(150 * time.Millisecond) // the check interval releases a pending poll
+			sc.settle()
+			if c.poll != nil && c.poll.Status != 0 {
+				c.poll = nil
+			}
+			if c.poll == nil {
+				a.SendPkt(Pkt{Type: "upgrade"})
+				sc.settle()
+				if so := w.Sock(d.sid); so != nil && so.Upgraded() {
+					c.Kind, c.ws = "websocket", a
+					a.OnPkt = func(wc *WSClient, p Pkt) { sc.processPkts(c, []Pkt{p}, wc) }
+				}
+			}
+		}
+		w.Expect(d.sid, "upgraded")
+		// past the upgrade timeout: whatever was made of the bogus connection, the server has let go of it
+		sc.sleepAlive(cfg.UT + time.Second)
+		rec.Log("candbogus", "transport", transport, "stillOpen", !bogus.closed, "status", bogus.Status)
+		w.Expect(d.sid, "open")
+		d.finish()
+	}}
+}
+
+// (13) C07: a heartbeat packet that arrives in the tick window of the timer it refreshes - the runtime timer has fired, its goroutine
+// is held before the timer's mutex (yield point timer.fired) - while the packet is accepted and the timer refreshed. The tick is
+// then stale: a revision-3 session must not be closed by the deadline its ping has just moved, a revision-4 session must not send
+// the ping a pong has just postponed. (The tick is known not to have reached the mutex: the expectation is exact here.)
+func beatTickWinScenario(name string, proto int, kind string) Scenario {
+	return Scenario{Name: name, Run: func(t *testing.T, rec *Rec, g *Gates) {
+		cfg := EngCfg{PI: 2 * time.Second, PT: time.Second, EIO3: true}
+		w := newEngWorld(t, rec, g, cfg)
+		sc := &Script{w: w, r: rand.New(rand.NewSource(1)), cfg: cfg, W: map[string]int{}}
+		var c *cliSess
+		if kind == "websocket" {
+			s := &Sess{Proto: proto}
+			c = &cliSess{S: s, Kind: "websocket"}
+			c.ws = w.DialWS(s, "", nil, func(wc *WSClient, p Pkt) { sc.processPkts(c, []Pkt{p}, wc) })
+		} else {
+			s, _ := w.Handshake(proto, false, false, ReqOpt{})
+			c = &cliSess{S: s, Kind: "polling"}
+		}
+		sc.ss = append(sc.ss, c)
+		sc.settle()
+		sid := c.S.Sid
+		if sid == "" {
+			w.Finish()
+			return
+		}
+		send := func(ty string) {
+			if c.ws != nil {
+				c.ws.SendPkt(Pkt{Type: ty})
+			} else {
+				w.Post(c.S, []Pkt{{Type: ty}}, ReqOpt{})
+			}
+			sc.settle()
+		}
+		g.Park("timer.fired", true)
+		// revision 3: the deadline (interval + timeout after opening) fires; revision 4: the ping timer (one interval after opening)
+		due := cfg.PI + cfg.PT
+		hb := "ping"
+		if proto == 4 {
+			due, hb = cfg.PI, "pong"
+		}
+		g.SleepArmed(due)
+		sc.settle()
+		held := g.Parked("timer.fired")
+		g.Park("timer.fired", false)
+		send(hb) // accepted: refreshes the very timer whose tick is held
+		g.ReleaseAll()
+		sc.settle()
+		so := w.Sock(sid)
+		rec.Log("tickwin", "proto", proto, "held", held, "closed", so == nil || so.ReadyState() == "closed")
+		w.Expect(sid, "open")
+		// from here on an ordinary silent peer: the session ends at its (moved) deadline, which the monitor's heartbeat clauses check
+		w.g.Sleep(2*(cfg.PI+cfg.PT) + time.Second)
+		sc.settle()
+		w.Expect(sid, "closed")
+		w.Snapshot()
+		w.Finish()
+	}}
+}
+
 func directFamily() []Scenario {
 	var out []Scenario
+	for _, proto := range []int{3, 4} {
+		for _, kind := range []string{"polling", "websocket"} {
+			out = append(out, beatTickWinScenario(fmt.Sprintf("beattick_%d_%s", proto, kind), proto, kind))
+		}
+	}
+	for _, tr := range []string{"polling", "nosuch"} {
+		for _, pp := range []bool{false, true} {
+			out = append(out, candBogusScenario(fmt.Sprintf("candbogus_%s_pp%v", tr, pp), tr, pp))
+		}
+	}
+	for _, which := range []string{"poll", "post"} {
+		for _, n := range []int{1, 100} {
+			out = append(out, failWriteScenario(fmt.Sprintf("failwrite_%s_%d", which, n), which, n))
+		}
+	}
 	for _, kind := range []string{"websocket", "webtransport"} {
 		for _, point := range []string{"upgrade.switching", "log:closing", "L.upgrade"} {
 			for _, follows := range []bool{false, true} {
